@@ -19,6 +19,10 @@ type advCase struct {
 	edit  func(u *tls.UConn) error            // optional client edit after BuildHandshakeState
 	scfg  func(c *tls.Config)                 // optional server config change
 	value func(cs tls.ConnectionState) string // the value the client must never report
+	// void reports that the forced value turned out to be on the wire of THIS connection's
+	// hello after all (the plan is made from a probe hello; GREASE values are drawn afresh
+	// per connection), i.e. the property's precondition "not offered" does not hold.
+	void func(ch *wire.ClientHello) bool
 }
 
 func rewriteServerHello(f func(sh *wire.ServerHello) bool) func(bool, []byte) []byte {
@@ -122,6 +126,13 @@ func TestC12(t *testing.T) {
 				s := s
 				add(advCase{name: fmt.Sprintf("tls13_serverhello_suite_%04x", s), max: tls.VersionTLS13, plan: func() *tls.VerifPlan {
 					return &tls.VerifPlan{RewriteOut: rewriteServerHello(func(sh *wire.ServerHello) bool { sh.Suite = s; return true })}
+				}, void: func(ch *wire.ClientHello) bool {
+					for _, x := range ch.Suites {
+						if x == s {
+							return true
+						}
+					}
+					return false
 				}})
 			}
 			// (5) key_share relabelled to a group the client did not offer
@@ -141,6 +152,18 @@ func TestC12(t *testing.T) {
 						sh.SetExt(wire.ExtKeyShare, d)
 						return true
 					})}
+				}, void: func(ch *wire.ClientHello) bool {
+					for _, x := range ch.Groups {
+						if x == g {
+							return true
+						}
+					}
+					for _, ks := range ch.KeyShares {
+						if ks.Group == g {
+							return true
+						}
+					}
+					return false
 				}})
 			}
 			// (6b) ALPN not offered in EncryptedExtensions
@@ -288,6 +311,12 @@ func TestC12(t *testing.T) {
 		hellos := wire.ClientHellos(h.C2S)
 		if len(hellos) > 0 {
 			rep["hello"] = mon.Hex(hellos[0])
+		}
+		if j.c.void != nil && len(hellos) > 0 {
+			if ch, err := wire.ParseClientHello(hellos[0]); err == nil && j.c.void(ch) {
+				r.Count("void_forced_value_was_on_this_wire_after_all", 1)
+				return
+			}
 		}
 		cs := h.Client.ConnectionState()
 		if h.ClientErr == nil {
